@@ -15,7 +15,7 @@ from . import c02
 ID = "C18"
 LEVEL = "exploration"
 TECHNIQUE = "bounded-exhaustive enumeration of all DAG pipelines x outputs x argument cuts, lazy vs reference evaluator, task graph vs reference dependency edges"
-RULE = ("the pipelines, outputs and argument combinations of C02 (G-DAG N<=3 quick, decorated N<=3 + N=4 thorough) with lazy=True, "
+RULE = ("the pipelines, outputs and argument combinations of C02 (G-DAG N<=2 decorated + N=3 quick; thorough adds the N=4 single-output family) with lazy=True, "
         "with and without an active construct_dag(), evaluate() called three times, and every ordered pair of requested outputs "
         "evaluated in both orders on one lazy pipeline. non-trivial = distinct (pipeline, output, cut, mode) with >= 2 functions on the dependency path")
 ASSUMPTIONS = c02.ASSUMPTIONS + ["task-graph nodes whose func is not a PipeFunc are output pickers and are contracted"]
@@ -175,7 +175,18 @@ def run_spec(spec, acc):
     acc.sample({"spec": spec, "out": gen_dag.all_outputs(spec)[-1], "mode": "dag"})
 
 
-plan = c02.plan
+STAGES = {"quick": ["N1", "N2", "N2-decorated", "N3"], "thorough": ["N1", "N2", "N2-decorated", "N3", "N4-single-output"]}
+
+
+def plan(tier, seed):
+    out = []
+    for st in STAGES[tier]:
+        n = sum(1 for _ in c02.specs_for(st))
+        nchunks = max(1, (n + c02.CHUNK[st] - 1) // c02.CHUNK[st])
+        us = [(st, (st, c, nchunks)) for c in range(nchunks)]
+        r = seed % len(us)
+        out.extend(us[r:] + us[:r])
+    return out
 
 
 def run_unit(unit):
